@@ -110,6 +110,10 @@ pub trait Sys: Sized + 'static {
     fn double_spent(_a: &Self::S, _b: &Self::S) -> bool {
         false
     }
+    /// site of a validate_merge rejection under correct use (suffix of the failure kind)
+    fn merge_reject_site(_recs: &[Rec<Self>], _a: &Self::S, _b: &Self::S) -> &'static str {
+        ""
+    }
     /// where the double spend sits (suffix of the failure kind; "" = top level)
     fn double_spent_site(_a: &Self::S, _b: &Self::S) -> &'static str {
         ""
@@ -553,6 +557,28 @@ pub struct Failure {
     pub hist: Vec<Abs>,
     pub mask: Mask,
     pub detail: String,
+    /// identity of this failing history for the golden failing-set: hash of (history, kind, knowledge set,
+    /// number of ==-distinct states at that knowledge set)
+    pub fid: u64,
+}
+pub fn failure_id(hist: &[Abs], kind: &str, mask: Mask, nstates: usize) -> u64 {
+    let mut h: u64 = 0xcbf29ce484222325;
+    let mut eat = |b: u64| {
+        for i in 0..8 {
+            h ^= (b >> (8 * i)) & 0xff;
+            h = h.wrapping_mul(0x100000001b3);
+        }
+    };
+    for a in hist {
+        eat(a.author as u64 | (a.cmd.k as u64) << 8 | (a.cmd.x as u64) << 16 | (a.cmd.y as u64) << 24 | (a.variant as u64) << 32);
+        eat(a.vis as u64);
+    }
+    for b in kind.bytes() {
+        eat(b as u64);
+    }
+    eat(mask as u64);
+    eat(nstates as u64);
+    h
 }
 
 #[derive(Default)]
@@ -574,7 +600,7 @@ impl Sink {
             match self.site_counts.get_mut(kind) {
                 Some(e) => e.0 += 1,
                 None => {
-                    self.site_counts.insert(kind.to_string(), (1, Failure { kind: kind.to_string(), hist: h.abs(), mask, detail: detail() }));
+                    self.site_counts.insert(kind.to_string(), (1, Failure { kind: kind.to_string(), hist: h.abs(), mask, detail: detail(), fid: 0 }));
                 }
             }
             return;
@@ -584,7 +610,10 @@ impl Sink {
             return;
         }
         self.seen.insert(key);
-        self.failures.push(Failure { kind: kind.to_string(), hist: h.abs(), mask, detail: detail() });
+        let abs = h.abs();
+        let nstates = h.table.get(mask as usize).map_or(0, |t| t.len());
+        let fid = failure_id(&abs, kind, mask, nstates);
+        self.failures.push(Failure { kind: kind.to_string(), hist: abs, mask, detail: detail(), fid });
     }
     pub fn absorb(&mut self, o: Sink) {
         self.total += o.total;
